@@ -136,6 +136,42 @@ async def scenario(backend, uni, path, history, j=None, at=None, kill=False, pro
     return lines, counts
 
 
+async def burst_scenario(uni, path, history, j, at):
+    """LMDB: the event at position j and the probe event are both in the writer's queue when the writer runs, and the engine
+    fails at the k-th mutation of the run.  Whatever the writer makes of a backlog, the failing event is applied completely or
+    not at all and the event queued behind it is applied."""
+    from .. import storedrv as D
+
+    st = await D.open_storage("lmdb", path)
+    fault = Fault()
+    remove = install(st, "lmdb", fault)
+    dump = kvfam._keydump("lmdb", uni)
+    try:
+        for sym in history[:j]:
+            await apply_event(st, "lmdb", uni, sym, fault)
+        for sym in (history[j], PROBE):
+            try:
+                await st.add_event(D._clone(uni.conc[sym]))
+            except Exception:
+                pass
+        fault.arm(at, False)
+        n = len(st._verif_gate.items)
+        if n:
+            D.writer_step(st, n)
+        while st._verif_gate.items:          # (what a writer left in the queue is worked off without faults)
+            fault.disarm()
+            D.writer_step(st, 1)
+        fault.disarm()
+        keys = await dump(st)
+    finally:
+        remove()
+        await D.close_storage(st)
+    present = ("id", PROBE) in keys
+    # (projection: the probe's own entries are set aside so that the dump can be compared with the states before / after the event)
+    return [{"a": "Fault", "sym": history[j], "keys": {k for k in keys if k[-1] != PROBE}, "err": "burst"},
+            {"a": "Probe", "id": PROBE, "present": present}]
+
+
 def _worker(payload):
     key, backend, histories, do_kill, max_points = payload
     uni = pool._CTX[key]
@@ -152,6 +188,9 @@ def _worker(payload):
                     p = os.path.join(base, "f%d_%d" % (j, k)) if backend != "sql" else _sqlpath(base, "f%d_%d" % (j, k))
                     lines, _ = asyncio.run(scenario(backend, uni, p, history, j=j, at=k))
                     cases.append(("error", j, k, lines))
+                    if backend == "lmdb":
+                        p = os.path.join(base, "b%d_%d" % (j, k))
+                        cases.append(("burst-error", j, k, asyncio.run(burst_scenario(uni, p, history, j, k))))
                     if do_kill:
                         p = os.path.join(base, "k%d_%d" % (j, k)) if backend != "sql" else _sqlpath(base, "k%d_%d" % (j, k))
                         pid = os.fork()
